@@ -51,7 +51,8 @@ var layoutVariants = []dbgen.Layout{
 }
 
 type shapeBounds struct {
-	MaxN      int   // entries: every shape up to this many
+	MaxN      int   // table rows: every shape up to this many
+	MaxNIndex int   // index entries: every shape up to this many
 	DeepTable []int // additional row counts for which only depth-4 table shapes are enumerated
 	DeepIndex []int // same for index trees
 	PageSize  int
@@ -129,10 +130,13 @@ func forIndexShapes(r *ev.Run, b shapeBounds, fn func(si *ShapeImage)) {
 	for n := 0; n <= b.MaxN; n++ {
 		ns = append(ns, n)
 	}
+	for n := b.MaxN + 1; n <= b.MaxNIndex; n++ {
+		ns = append(ns, n)
+	}
 	ns = append(ns, b.DeepIndex...)
 	for _, n := range ns {
 		for _, t := range dbgen.EnumIndexTrees(n, 3, 2, 3, 4) {
-			if n > b.MaxN && t.Depth() < 4 {
+			if n > b.MaxNIndex && t.Depth() < 4 {
 				continue
 			}
 			for lv := range layoutVariants {
@@ -190,9 +194,9 @@ func forIndexShapes(r *ev.Run, b shapeBounds, fn func(si *ShapeImage)) {
 
 func quickBounds(r *ev.Run) shapeBounds {
 	if r.Thorough() {
-		return shapeBounds{MaxN: 9, DeepTable: []int{10}, DeepIndex: []int{15, 16}, PageSize: 512}
+		return shapeBounds{MaxN: 9, MaxNIndex: 13, DeepTable: []int{10}, DeepIndex: []int{15, 16}, PageSize: 512}
 	}
-	return shapeBounds{MaxN: 7, DeepTable: []int{8, 9}, DeepIndex: []int{15}, PageSize: 512}
+	return shapeBounds{MaxN: 7, MaxNIndex: 10, DeepTable: []int{8, 9}, DeepIndex: []int{15}, PageSize: 512}
 }
 
 // project the logical rows of a table on a column list (names resolved like
